@@ -18,6 +18,8 @@ func debugDump(w *World, what string, args []string) {
 		for _, o := range r.Obls {
 			fmt.Println(o.Rule, o.Key, o.Status, o.Detail)
 		}
+	case "callkills":
+		debugCallKills(w, args)
 	case "writes":
 		debugWrites(w, args)
 	case "panics":
